@@ -40,6 +40,20 @@ CLAIMS["C13"] = (
     "ignored.",
     "DESIGN.md §2 C13")
 
+CLAIMS["C09"] = (
+    "qualifier (typestate) inference aligned/raw over OrderedRingBuffer with interprocedural "
+    "private-parameter obligations; dominance/path rules on update(), window(), MovingWindow.at",
+    "Decides two structural necessary conditions of the sliding-map behaviour on every path of the "
+    "parsed source: (NORM) buffer time bounds, gap boundaries, datetime arguments of the private "
+    "slot-arithmetic methods and the operands of the emptiness guard are on the slot grid; (VALID) "
+    "update() rejects too-old samples before any mutation, window() clamps, checks emptiness and "
+    "fills gaps before returning, MovingWindow.at range-checks both ends before every buffer "
+    "read. It does NOT decide the consistency of the incrementally maintained gap list / "
+    "count_valid with the data over all histories (an inductive data-structure invariant).",
+    "Trusted: aligned ± k·period is aligned; the qualifier rules in sa/props/c09.py; statement-"
+    "granular CFG.",
+    "DESIGN.md §2 C09")
+
 PENDING_REASON = ("no static check is registered for this property yet in this revision of the "
                   "machinery (planned rules are in DESIGN.md §2); nothing is claimed for it")
 
